@@ -166,12 +166,26 @@ func (w *hsWorld) passive(sub uint64) {
 	w.drainAccept()
 	w.Take()
 	opts, valid, ts := synOptions(r)
-	p.Send(codec.FlagSYN, p.ISS, 0, 65535, opts, nil)
+	twin := !w.cfg.Cookie && r.Chance(0.15)
+	if twin {
+		// the SYN and an immediate duplicate reach the listener back to back, before the
+		// goroutine it starts for the first one has got anywhere
+		p.NoWait = true
+		p.Send(codec.FlagSYN, p.ISS, 0, 65535, opts, nil)
+		p.Send(codec.FlagSYN, p.ISS, 0, 65535, opts, nil)
+		p.NoWait = false
+		w.Settle()
+		w.Probes["duplicate_syn_back_to_back"]++
+	} else {
+		p.Send(codec.FlagSYN, p.ISS, 0, 65535, opts, nil)
+	}
 	mine := p.Mine(w.Take())
 	var synack *codec.TCP
 	for _, t := range mine {
 		if t.Flags&(codec.FlagSYN|codec.FlagACK) == codec.FlagSYN|codec.FlagACK && synack == nil {
 			synack = t
+		} else if twin && synack != nil && t.Flags&(codec.FlagSYN|codec.FlagACK) == codec.FlagSYN|codec.FlagACK && t.Seq == synack.Seq {
+			// the duplicate may be answered by the same SYN-ACK again
 		} else {
 			w.Fail("unexpected-reply", "", "SYN %d->80 drew an unexpected segment %s besides the SYN-ACK", p.PPort, fl(t))
 		}
@@ -252,6 +266,11 @@ func (w *hsWorld) passive(sub uint64) {
 	flags := uint8(codec.FlagACK)
 	if len(data) > 0 {
 		flags |= codec.FlagPSH
+	}
+	if delta != 0 && p.TSOn && r.Chance(0.3) {
+		// timestamps were negotiated, the wrong ACK comes without one: wrong is wrong, it is reset all the same
+		p.TSOn = false
+		w.Probes["wrong_ack_without_timestamp"]++
 	}
 	p.Send(flags, p.ISS+1, ack, 65535, nil, data)
 	replies := p.Mine(w.Take())
@@ -608,6 +627,7 @@ func (scHandshake) Run(t *testing.T, prop string, seed uint64, cfgRaw json.RawMe
 	o := &RunOut{Cfg: cfgRaw}
 	saved := tcp.SynRcvdCountThreshold
 	defer func() { tcp.SynRcvdCountThreshold = saved }()
+	synRcvd0 := tcp.VerifSynRcvdCount()
 	bubble(t, func() {
 		w := &hsWorld{PeerWorld: NewPeerWorld(seed, uint32(cfg.MTU), NodeOpts{SACK: true}), cfg: cfg}
 		defer w.Close()
@@ -649,8 +669,9 @@ func (scHandshake) Run(t *testing.T, prop string, seed uint64, cfgRaw json.RawMe
 		// let every half-open handshake time out (63 s) so that the process-global
 		// SYN-RCVD counter is back at zero for the next run
 		w.Advance(70 * time.Second)
-		if n := tcp.VerifSynRcvdCount(); n != 0 {
-			w.Probes["synrcvd_count_leaked"] += int64(n)
+		if n := tcp.VerifSynRcvdCount(); n != synRcvd0 && w.Viol == nil {
+			w.Probes["synrcvd_count_leaked"] += int64(n - synRcvd0)
+			w.Fail("half-open-slots-leaked", "", "%d handshake slot(s) are still counted as in progress although every handshake of the run ended more than 63 s ago: after enough of them listeners answer in SYN-cookie mode - and drop wrong ACKs silently - without any flood", n-synRcvd0)
 		}
 		finish(w.World, o)
 		if w.Replay {
